@@ -82,10 +82,14 @@ class NfdRegister(PrefixRegisterer):
                     break
                 await aio.sleep(0.001)
             try:
-                await self.app.express(
+                _, reply, _ = await self.app.express(
                     nfd_mgmt.make_command_v2('rib', 'unregister', self.app.face, name=name),
                     app_param=b'', signer=sec.DigestSha256Signer(for_interest=True),
                     validator=pass_all, lifetime=1000)
-                return True
+                ret = nfd_mgmt.parse_response(reply)
+                return ret['status_code'] == 200
             except (types.InterestNack, types.InterestTimeout, types.InterestCanceled, types.ValidationFailure):
+                return False
+            except (enc.DecodeError, TypeError, ValueError, IndexError, struct.error):
+                # The reply is not a ControlResponse
                 return False
